@@ -294,7 +294,15 @@ impl<'a> G<'a> {
                 4 if nformals > 0 => { v.push(BT::Quote(vec![BT::Formal(self.rng.below(nformals))])); v.push(BT::Tok(";".into())); }
                 5 if allow_usage && !self.obj.is_empty() => { let i = self.rng.below(self.obj.len()); v.push(BT::Usage(self.obj[i].clone(), None)); }
                 6 if allow_usage && !self.defs.is_empty() => { let i = self.rng.below(self.defs.len()); let (n, k, _) = self.defs[i].clone(); let args = (0..k).map(|_| if nformals > 0 && self.rng.chance(1, 2) { vec![BT::Formal(self.rng.below(nformals))] } else { vec![BT::Tok(self.id("g"))] }).collect(); v.push(BT::Usage(n, Some(args))); }
-                7 => { v.push(BT::Str(format!("\"{}\"", self.id("s")))); v.push(BT::Tok(";".into())); }  // a token right after the string (no trailing trivia: known class D4)
+                7 => {
+                    // an ordinary string literal in macro text is left untouched (IEEE 22.5.1): no substitution of formals, no `` removal,
+                    // `//` and `/*` inside it are not comments; a token follows directly (no trailing trivia: known class D4)
+                    let id = self.id("s");
+                    let st = match self.rng.below(8) {
+                        0 => format!("\"{}//x\"", id), 1 => format!("\"{}``y\"", id), 2 if nformals > 0 => format!("\"{} p0 \"", id),
+                        3 => format!("\"{}/*z*/\"", id), 4 => format!("\"{},(\"", id), _ => format!("\"{}\"", id) };
+                    v.push(BT::Str(st)); v.push(BT::Tok(";".into()));
+                }
                 8 => v.push(BT::Cont),
                 _ => v.push(BT::Tok(self.id(prefix))),
             }
@@ -305,8 +313,12 @@ impl<'a> G<'a> {
         v
     }
     fn arg(&mut self) -> Vec<BT> {
-        match self.rng.below(6) {
+        match self.rng.below(9) {
             0 => vec![BT::Tok("(".into()), BT::Tok(self.id("g")), BT::Tok(",".into()), BT::Tok(self.id("g")), BT::Tok(")".into())],
+            // commas are protected by every bracket kind and by strings
+            6 => vec![BT::Tok("{".into()), BT::Tok(self.id("g")), BT::Tok(",".into()), BT::Tok(self.id("g")), BT::Tok("}".into())],
+            7 => vec![BT::Tok("{".into()), BT::Tok(self.id("g")), BT::Tok(",".into()), BT::Tok("[".into()), BT::Tok(self.id("g")), BT::Tok(",".into()), BT::Tok(self.id("g")), BT::Tok("]".into()), BT::Tok("}".into())],
+            8 => vec![BT::Str(format!("\"{},{}\"", self.id("s"), self.id("s"))), BT::Tok(";".into())],
             1 => vec![BT::Str(format!("\"{}\"", self.id("s"))), BT::Tok(";".into())],
             2 => vec![BT::Tok("[".into()), BT::Tok(self.id("g")), BT::Tok("]".into())],
             3 => vec![BT::Tok(self.id("g")), BT::Sp, BT::Tok(self.id("g"))],
